@@ -33,6 +33,7 @@ Catalogue ==
        <<"stack-arg", InitSession(Ctx(<<OP_DUP, OP_TOALTSTACK, OP_1ADD, OP_FROMALTSTACK, OP_SWAP>>, "BASE", {}), << <<5>>, <<7>> >>, <<>>, NoTce, 0)>>,
        <<"two-scripts", InitSession(Ctx(<<OP_1, OP_2>>, "BASE", {}), <<>>, <<OP_ADD, OP_3, OP_EQUAL>>, NoTce, 0)>>,
        <<"p2sh", InitSession(Ctx(RawPush(Redeem), "BASE", {"P2SH"}), <<>>, P2shSpk, NoTce, 0)>>,
+       <<"multisig", InitSession(Ctx(<<OP_0, OP_0>> \o Key33 \o Key33 \o <<OP_2, OP_CHECKMULTISIG, OP_NOP, OP_1>>, "BASE", {}), <<>>, <<>>, NoTce, 0)>>,
        <<"fails", InitSession(Ctx(<<OP_1, OP_2, OP_EQUALVERIFY, OP_3>>, "WITNESS_V0", {}), <<>>, <<>>, NoTce, 0)>> >>
 
 ExecCmds == << <<"OP_1", <<OP_1>> >>, <<"OP_DUP", <<OP_DUP>> >>, <<"OP_1 OP_IF", <<OP_1, OP_IF>> >>, <<"OP_ENDIF", <<OP_ENDIF>> >>, <<"OP_DROP", <<OP_DROP>> >>,
